@@ -93,6 +93,18 @@ CHECKS = {
     design_ref="DESIGN.md 4.4, 4.6, 5.3, 7 (C19)",
     note="Trusts TLC, the harness's scripted ObjectWriter/Builder and digests, expat for the FDT XML of the recorded sessions, Partition.tla for the block structure. The decode rule is the one stated by the property (RS: any k distinct symbols; others: all k source symbols), not flute's. Quick tier samples (seeded) the TLC-enumerated schedules; thorough tier replays far more or all of them.",
     technique="TLA+ property monitor (ReceiverProps.tla) evaluated by TLC on traces recorded from the real MultiReceiver fed TLC-enumerated fault schedules (Gen_Recv.tla) over sessions recorded from the real Sender"),
+ "C15": dict(
+    category="model_checking",
+    text="ToiAlloc.tla (mechanism: next / reserved / handles / objects, allocate with skip of 0 and of reserved values, release) is model-checked for C15_Inv (next allocation free and non-zero, held values pairwise distinct and exactly the reserved set) from initial values {0, 1, M-2, M-1}; every operation history up to the depth bound that TLC prints is replayed on the real Sender for every TOI width with the initial value next to the wrap point, handle drops partly on another thread, plus the random default initial value and a full cycle of the 16-bit space with the maximum TOI live; Mon_Toi.tla judges every allocation (non-zero, within width, not reserved / attached to a live object, equal to the TOI of the object's packets) and SenderProps.tla the packets and FDT entries.",
+    design_ref="DESIGN.md 4.3, 7 (C15)",
+    note="Trusts TLC; TOIs compared as hexadecimal strings; 'live object' = is_added or still held by a sender session (hook snapshot); thread-safety is Send (compile-time assertion in the harness) plus drops executed on another thread, not a schedule exploration of Rust threads.",
+    technique="TLA+ mechanism spec model-checked with TLC; TLC-generated histories replayed on the real Sender; TLA+ monitor on the recorded traces"),
+ "C20": dict(
+    category="model_checking",
+    text="TLC enumerates every composition of the object length into read sizes for objects of 1..8 bytes (E, B in {1,2}, No-Code and Reed-Solomon, transfer count 1-2, with and without carousel cycles); the real Sender is run once from a buffer and once from a scripted seekable stream returning exactly those read sizes (and from a file, a 5-byte BufReader, 1-byte and 3-byte reads for larger objects); Mon_Source.tla requires the complete packet sequences (all decoded fields and payload digests, timestamps apart) to be identical, over several transfers and carousel cycles.",
+    design_ref="DESIGN.md 7 (C20)",
+    note="Trusts TLC, rfcdec and MD5 digests of payloads.",
+    technique="TLC-enumerated read schedules replayed on the real Sender; TLA+ monitor comparing packet sequences"),
 }
 
 NOT_YET = "check under construction in this round (specification and harness not finished yet)"
